@@ -159,7 +159,9 @@ def ob_handler_failure_not_ignored(report, prop):
         models = [(r'future::poll_fn$', m_poll_fn), (r'JoinError::is_panic$', m_is_panic), (r'JoinError::is_cancelled$', lambda ex, p, call, k: k(p, z3.BoolVal(False))),
                   (r'JoinError::try_into_panic$', m_try_into_panic), (r'panic::resume_unwind$|panic::panic_any$', m_diverge),
                   (r'ActivePeers::(remove|remove_with_stable_id)$', m_rm)] + CONNECTION_MODELS
-        ex = e2.executor('anemo', models, max_depth=1, unroll=1, fixed_bounds=True)
+        # the arm bodies may be private methods of the manager (`handle_connection_handler_joined(out)`): those are entered; the big handlers are not the subject
+        ex = e2.executor('anemo', models, max_depth=2, unroll=1, fixed_bounds=True,
+                         opaque=[r'ConnectionManager::(handle_connect_request|handle_incoming|handle_connecting_result|handle_connectivity_check|shutdown|add_peer|dial_peer)$'])
         start = find_method(ex.prog, 'ConnectionManager', 'start')
         fn = find_closure(ex.prog, start, [0])
         p, args = coroutine_start(ex, fn)
